@@ -80,10 +80,12 @@ def _import_all(root, instrument):
     old = _purge()
     finder = _Finder(root, instrument)
     sys.meta_path.insert(0, finder)
+    import binascii as real_binascii
     real_io, real_struct = sys.modules["io"], sys.modules["struct"]
     if instrument:
         sys.modules["io"] = shims.ShIO()
         sys.modules["struct"] = shims.ShStructMod()
+        sys.modules["binascii"] = shims.ShBinascii()
     try:
         importlib.import_module(PKG)
         for sub in ("core", "expr", "debug", "lib", "lib.binary", "lib.bitstream", "lib.containers", "lib.hex", "lib.py3compat"):
@@ -94,6 +96,7 @@ def _import_all(root, instrument):
         mods = {k: v for k, v in sys.modules.items() if k == PKG or k.startswith(PKG + ".")}
     finally:
         sys.modules["io"], sys.modules["struct"] = real_io, real_struct
+        sys.modules["binascii"] = real_binascii
         sys.meta_path.remove(finder)
         _purge()
         sys.modules.update(old)
